@@ -216,6 +216,36 @@ def run(ctx):
                         ok = start == 12 and stride == 12 and L == 12 and exact
                         why = "entries at %d + %d*k, %d bytes each, loop continues while %d + %d*%s <= size" % (start, stride, L, bf[0], bf[1], v.split(":")[-1])
     res.check(ok, "C15-R5", "bus-status:entry-loop", gi.loc, "one payload per 12-byte entry, starting at offset 12", "bus-status entry loop: " + why)
+    # ---- R4b position of the trailing checksum: right behind the announced data bytes
+    from rules.decoder_rules import _linear
+    for cls, lengetter in (("TECMP::LinPayload", "getDataLength"), ("TECMP::CanPayload", "getDlc")):
+        g = fb.fn(cls + "::getCrc", 0)
+        hs = fb.record(cls + "::Header")["size"]
+
+        def syms(x, lengetter=lengetter):
+            if x.get("k") == "call" and (x.get("callee") or {}).get("nm") == lengetter:
+                return "L"
+            if x.get("k") == "call" and (x.get("callee") or {}).get("nm") == "data" and fb.is_payload_buffer(x.get("obj", {})):
+                return "D"
+            return None
+        reads_at = []
+        for x in g.nodes():
+            if x.get("k") == "un" and x.get("op") == "*":
+                reads_at.append((x, _linear(g, x["e"], syms)))
+            elif x.get("k") == "call" and (x.get("callee") or {}).get("nm") in ("operator[]", "at") and fb.is_payload_buffer(x.get("obj", {})) and x.get("args"):
+                f0 = _linear(g, x["args"][0], syms)
+                reads_at.append((x, None if f0 is None else dict(f0, D=1)))
+            elif x.get("k") == "call" and facts.copy_args(x) is not None:
+                reads_at.append((x, _linear(g, facts.copy_args(x)[1], syms)))
+            elif x.get("k") == "call" and (x.get("callee") or {}).get("nm") in ("back", "front") and fb.is_payload_buffer(x.get("obj", {})):
+                reads_at.append((x, None))
+        reads_at = [(x, f0) for x, f0 in reads_at if f0 is None or f0.get("D")]
+        ok = bool(reads_at) and all(f0 is not None and f0.get("D") == 1 and f0.get("L") == 1 and f0.get(1, 0) == hs and set(k for k, v in f0.items() if v) <= {"D", "L", 1}
+                                    for x, f0 in reads_at)
+        res.check(ok, "C15-R4", "%s::getCrc:position" % cls, (reads_at[0][0] if reads_at else g.raw).get("loc"),
+                  "checksum read at payload offset sizeof(Header) + %s()" % lengetter,
+                  "%s::getCrc does not read the byte(s) at payload offset %d + %s(): the converted packet's checksum is not the wire field when anything "
+                  "follows it in the buffer (read positions: %s)" % (cls, hs, lengetter, [f0 for _, f0 in reads_at]))
     # ---- R8 no state between conversions
     tdec = fb.fn(TD + "Decode")
     reach = fb.reachable_from([tdec])
